@@ -43,6 +43,12 @@ def main():
         for pid, patch, status, info in ex.map(one, jobs):
             print(f"{status:14s} {pid} {os.path.relpath(patch, ROOT)}  {info}")
             bad += status != "caught"
+            meta = os.path.join(os.path.dirname(patch), "meta.json")
+            if os.path.basename(patch) == "patch.diff" and os.path.exists(meta):
+                m = json.load(open(meta))              # keep the seeded change's record of the latest verdict current
+                m["check_result"] = {"cmd": f"VERIF_REPO=<patched copy> ./check {pid} --tier quick",
+                                     "exit": {"caught": 1, "MISSED": 0}.get(status, 2), "caught": status == "caught", "detail": info}
+                json.dump(m, open(meta, "w"), indent=1)
     print(f"{len(jobs) - bad}/{len(jobs)} mutants caught")
     return 1 if bad else 0
 
